@@ -2348,6 +2348,10 @@ class Ggate(Gate):
         super().__init__([S, d])
         self.ns = S.shape[-1] // 2
 
+    def merge(self, other):
+        # the first parameter is a matrix: it is not additive, and Gate.merge cannot compare arrays
+        raise MergeFailure("Gaussian gates given by their symplectic matrices cannot be merged.")
+
     def _apply(self, reg, backend, **kwargs):
         S, d = par_evaluate(self.p)
         backend.gaussian_gate(S, d, *reg)
